@@ -110,6 +110,27 @@ CHECKS = {
          "DESIGN.md §4 C11"),
 }
 
+
+# later extensions of the enumerated space, appended to the level text
+EXTRA = {
+ "C01": " The registry also contains the exported ExtendedCurve implementation of edwards25519vartime (21 instances).",
+ "C02": " Receiver-aliased forms r.Op(r,b), r.Op(a,r), r.Op(r,r); values made by every constructor (fresh, Zero, One, SetInt64, short SetBytes, Pick, Clone) as operands and in Equal, both directions.",
+ "C03": " Scalars include Pick results under streams that start with the encodings of q-1, q, q+1.",
+ "C05": " After every program a latent-sharing probe writes every variable in place once: a variable sharing storage with another one receives two increments.",
+ "C07": " Large n in {8,12,16,21,24,32} (thorough to 64) with a menu of subset shapes; the sum of two commitment polynomials keeps its base.",
+ "C08": " Negated R / S / key; every small-order key with an ordinary R=k*B, S=k over 64 messages.",
+ "C09": " BLS over a family of 400 messages per combination; CoSi aggregation functions return the sum, leave their inputs intact and are repeatable.",
+ "C10": " Additional event: the approval of an equivocated deal (another polynomial whose SessionID field claims this session).",
+ "C13": " Equation-consistent two-field forgeries (share value altered, proof commitments recomputed from the verification equations); batch verification and recovery leave the caller's slices intact.",
+ "C14": " 300-character protocol names differing in one character; prover randomness is a fixed tape per case.",
+ "C15": " Pair shuffle also with a generator other than the base point; biffle forging prover (each of the 8 relations violated, same-shape transcript); sequence shuffle offered an output with one column dropped and honestly proven.",
+ "C16": " Every bit of format and boundary bytes, cancelling double flips in the tag; ciphertexts produced once per case. IBE-CCA wrong-identity clause judged for the empty message (open known finding) and from 8 bytes on.",
+ "C17": " Families of 2,000 Pick streams and 3,000 hashed messages per group; Embed under all-ones / all-zero stream prefixes.",
+ "C18": " In-place Sub/Neg forms; the transcript also carries Pick/hash families, Pick under 0xff-prefixed streams and the decoding of v+p coordinate encodings.",
+ "C19": " Depth-2 exploration from six non-initial states reached by prefixes of 8-27 steps; for every seed length 1..300 changing one byte of the seed or of the absorbed data changes the output.",
+ "C20": " Also: a scalar decoded from an unreduced encoding, the first use of a freshly constructed suite of every family, suites with caller-supplied domain-separation tags.",
+}
+
 NOT_YET = "check not built yet in this round (planned: see DESIGN.md §4)"
 
 def main():
@@ -126,7 +147,7 @@ def main():
                 "evidence_file": f"/verif/evidence/{i}.json",
                 "replay_cmd_template": "./vf replay {path}",
                 "engine": "vfcheck",
-                "level_claimed": {"category": cat, "text": text, "design_ref": ref},
+                "level_claimed": {"category": cat, "text": text + EXTRA.get(i, ""), "design_ref": ref},
                 "level_note": note,
                 "technique": tech,
             })
